@@ -150,6 +150,15 @@ func (cr *cursor) applyWordBoundaryRules(i int) (isWordBoundary, removePrevNoExt
 		isWordBoundary = true // Rule WB3b
 	} else if cr.prev == 0x200D && cr.isExtentedPic {
 		isWordBoundary = false // Rule WB3c
+		// the rules WB6, WB7b and WB12 still apply to the previous (non Extend) rune,
+		// since the ZWJ is ignored (rule WB4)
+		removePrevNoExtend = (prevPrev == ucd.WordBreakALetter || prevPrev == ucd.WordBreakHebrew_Letter) &&
+			(prev == ucd.WordBreakMidLetter || prev == ucd.WordBreakMidNumLet || prev == ucd.WordBreakSingle_Quote) &&
+			(current == ucd.WordBreakALetter || current == ucd.WordBreakHebrew_Letter) || // Rule WB6
+			prevPrev == ucd.WordBreakHebrew_Letter && prev == ucd.WordBreakDouble_Quote &&
+				current == ucd.WordBreakHebrew_Letter || // Rule WB7b
+			prevPrev == ucd.WordBreakNumeric && current == ucd.WordBreakNumeric &&
+				(prev == ucd.WordBreakMidNum || prev == ucd.WordBreakMidNumLet || prev == ucd.WordBreakSingle_Quote) // Rule WB12
 	} else if prev == ucd.WordBreakWSegSpace &&
 		current == ucd.WordBreakWSegSpace && isAfterNoExtend {
 		isWordBoundary = false // Rule WB3d
